@@ -4,7 +4,15 @@ package refstore
 // (ErrInjected, or context.DeadlineExceeded for FaultKind "deadline") unless
 // SetFaultErr was called with a non-nil error.
 
-import "sync"
+import (
+	"context"
+	"errors"
+	"strings"
+	"sync"
+
+	"github.com/zitadel/oidc/v3/pkg/oidc"
+	"github.com/zitadel/oidc/v3/pkg/op"
+)
 
 var faultErrs sync.Map // *Store -> error
 
@@ -24,3 +32,100 @@ func (s *Store) extFaultErr() error {
 	}
 	return nil
 }
+
+// ---- storage variants by OPTIONAL interface (C10). The framework type-asserts these
+// interfaces; every call goes through the same journal / fault hook as the rest.
+
+// MaxStorage implements every optional interface: besides what AsStorage(true, true, true)
+// offers, op.CanTerminateSessionFromRequest, op.CanGetPrivateClaimsFromRequest,
+// op.TokenExchangeTokensVerifierStorage and a journaled op.JWTProfileTokenStorage.
+type MaxStorage struct {
+	*Store
+	CC
+	TE
+	Dev
+}
+
+// AsMaxStorage exposes all optional capabilities.
+func (s *Store) AsMaxStorage() op.Storage { return MaxStorage{s, CC{s}, TE{s}, Dev{s}} }
+
+// AsMinStorage exposes op.Storage plus the three grant storages only: the optional
+// methods *Store itself has (SetUserinfoFromRequest, JWTProfileTokenType) are hidden.
+func (s *Store) AsMinStorage() op.Storage {
+	return struct {
+		op.Storage
+		CC
+		TE
+		Dev
+	}{s, CC{s}, TE{s}, Dev{s}}
+}
+
+func (m MaxStorage) TerminateSessionFromRequest(ctx context.Context, req *op.EndSessionRequest) (string, error) {
+	s := m.Store
+	if err := s.enter(ctx, "TerminateSessionFromRequest"); err != nil {
+		return "", err
+	}
+	s.mu.Lock()
+	defer s.mu.Unlock()
+	for id, t := range s.Tokens {
+		if t.ClientID == req.ClientID && t.Subject == req.UserID {
+			delete(s.Tokens, id)
+		}
+	}
+	for id, t := range s.Refresh {
+		if t.ClientID == req.ClientID && t.Subject == req.UserID {
+			delete(s.Refresh, id)
+		}
+	}
+	return req.RedirectURI, nil
+}
+
+func (m MaxStorage) GetPrivateClaimsFromRequest(ctx context.Context, request op.TokenRequest, scopes []string) (map[string]any, error) {
+	if err := m.Store.enter(ctx, "GetPrivateClaimsFromRequest"); err != nil {
+		return nil, err
+	}
+	var claims map[string]any
+	for _, sc := range scopes {
+		if strings.HasPrefix(sc, "custom:") {
+			if claims == nil {
+				claims = map[string]any{}
+			}
+			claims[strings.TrimPrefix(sc, "custom:")] = "v-" + request.GetSubject()
+		}
+	}
+	return claims, nil
+}
+
+// the reference storage knows no tokens besides the provider's own: it rejects what the
+// framework could not verify itself
+func (m MaxStorage) VerifyExchangeSubjectToken(ctx context.Context, token string, tokenType oidc.TokenType) (string, string, map[string]any, error) {
+	if err := m.Store.enter(ctx, "VerifyExchangeSubjectToken"); err != nil {
+		return "", "", nil, err
+	}
+	return "", "", nil, errors.New("unknown subject token")
+}
+
+func (m MaxStorage) VerifyExchangeActorToken(ctx context.Context, token string, tokenType oidc.TokenType) (string, string, map[string]any, error) {
+	if err := m.Store.enter(ctx, "VerifyExchangeActorToken"); err != nil {
+		return "", "", nil, err
+	}
+	return "", "", nil, errors.New("unknown actor token")
+}
+
+func (m MaxStorage) JWTProfileTokenType(ctx context.Context, request op.TokenRequest) (op.AccessTokenType, error) {
+	if err := m.Store.enter(ctx, "JWTProfileTokenType"); err != nil {
+		return op.AccessTokenTypeBearer, err
+	}
+	return op.AccessTokenTypeBearer, nil
+}
+
+var (
+	_ op.CanTerminateSessionFromRequest     = MaxStorage{}
+	_ op.CanGetPrivateClaimsFromRequest     = MaxStorage{}
+	_ op.CanSetUserinfoFromRequest          = MaxStorage{}
+	_ op.TokenExchangeTokensVerifierStorage = MaxStorage{}
+	_ op.JWTProfileTokenStorage             = MaxStorage{}
+	_ op.ClientCredentialsStorage           = MaxStorage{}
+	_ op.TokenExchangeStorage               = MaxStorage{}
+	_ op.DeviceAuthorizationStorage         = MaxStorage{}
+)
